@@ -209,6 +209,13 @@ func splitTags(t string) []string {
 // burst injects several packets a few milliseconds apart and waits for all handlers; replies are attributed to the
 // packets by transaction id and hardware address.  Only the last round of the burst carries a snapshot.
 func (s *srvRun) burst(pkts [][]byte, arp []arpResp, gapMs []int) []roundObs {
+	// an answer that arrives at the very instant one 200 ms try ends and the next begins is seen or missed depending on
+	// which of the two happens first at that instant: keep answers off those instants
+	for i := range arp {
+		if arp[i].delay%(200*time.Millisecond) == 0 {
+			arp[i].delay += time.Millisecond
+		}
+	}
 	s.arp = map[uint32]arpResp{}
 	for _, a := range arp {
 		s.arp[a.ip] = a
